@@ -47,7 +47,7 @@ TIME_OPTS = {1, 2, 8, 13}
 
 def ob(name, entry, desc, defines=(), unwind=8, unwindset=(), timeout=600, mem_gb=4, **kw):
     d = dict(name=name, harness="C39_conf.c", entry=entry, desc=desc, defines=list(defines), unwind=unwind,
-             unwindset=list(unwindset) + ["vpd_memset.0:130", "vpd_memcpy.0:34", "vpd_memcpy.1:2", "vpe_memcpy.0:130", "vpd_calloc.0:15", "evdns_base_set_max_requests_inflight.4:15", "vpd_check_write.0:10"],
+             unwindset=list(unwindset) + ["vpd_memset.0:130", "vpd_memcpy.0:130", "vpd_memcpy_var.0:30", "vpe_memcpy.0:130", "vpd_calloc.0:15", "evdns_base_set_max_requests_inflight.4:15", "vpd_check_write.0:10", "c39_sa_equal.0:18"],
              cbmc=list(CHK) + ["--object-bits", "10"] + list(kw.pop("cbmc", [])), timeout=timeout, mem_gb=mem_gb)
     d.update(kw)
     return d
@@ -99,25 +99,29 @@ def opt_obs(tier):
     return o
 
 def line_obs(tier):
-    N = 14 if tier == "quick" else 16
+    N = 12 if tier == "quick" else 14
     H = 6 if tier == "quick" else 8
     F = 6 if tier == "quick" else 8
     rc = [["--replace-calls", "evdns_base_set_option_impl:c39_opt_recorder"]]
     o = []
-    o.append(ob("resolv_line_N%d" % N, "harness_resolv",
-                "resolv_conf_parse_line(any line <= %d bytes in an exact object, any flags) on a base with 0/1 nameserver and 0/1 search domain: "
-                "nameserver ring, search list (order, leading dots), ndots, (option,value) pairs handed to the option routine == reference; other "
-                "lines change nothing; no leak (excluding KF-C39-ndots-reset)" % N,
-                ["C39_N=%d" % N, "KF_EXCLUDE_NDOTS_RESET"], unwind=N + 3, instrument=rc, timeout=900, mem_gb=8))
-    o.append(ob("resolv_line_kf_ndots", "harness_resolv",
+    def rl(name, n, af, extra, desc, **kw):
+        # loop bounds: `search` domains <= (n - 6) / 2 (each needs a blank and a byte), `options` tokens <= (n - 7) / 2
+        return ob(name, "harness_resolv", desc, ["C39_N=%d" % n, "C39_AF=%d" % af] + extra, unwind=max(n + 3, 12), instrument=rc, timeout=900, mem_gb=8,
+                  unwindset=["resolv_conf_parse_line.2:%d" % ((n - 6) // 2 + 2), "resolv_conf_parse_line.3:%d" % ((n - 7) // 2 + 2)], **kw)
+    for af, what in ((1, "yields an IPv4 address"), (0, "rejects the address"), (2, "yields an IPv6 address")):
+        n = N if af == 1 else 12
+        o.append(rl("resolv_line_N%d_af%d" % (n, af), n, af, ["KF_EXCLUDE_NDOTS_RESET"],
+                    "resolv_conf_parse_line(any line <= %d bytes in an exact object, any flags; the address parser %s) on a base with 0/1 nameserver and "
+                    "0/1 search domain: nameserver ring, search list (order, leading dots), ndots, (option,value) pairs handed to the option routine == "
+                    "reference; other lines change nothing; no leak (excluding KF-C39-ndots-reset)" % (n, what)))
+    o.append(rl("resolv_line_kf_ndots", 10, 1, ["KF_ONLY_NDOTS_RESET"],
                 "the same on exactly the KF-C39-ndots-reset inputs (domain/search line on a base whose ndots is not 1), lines <= 10 bytes",
-                ["C39_N=10", "KF_ONLY_NDOTS_RESET"], unwind=13, instrument=rc, timeout=900, mem_gb=8,
                 expect_fail=["C39: a domain/search line changed ndots"], known_finding="KF-C39-ndots-reset"))
     for af, what in ((0, "rejects the address"), (1, "yields an IPv4 address"), (2, "yields an IPv6 address")):
         o.append(ob("hosts_line_N%d_af%d" % (H, af), "harness_hosts",
                     "evdns_base_parse_hosts_line(any line <= %d bytes in an exact object; the address parser %s): result and recorded (name, address) "
                     "entries == reference (comment stripped, first field = address without port, remaining fields = names in order); no leak" % (H, what),
-                    ["C39_N=%d" % H, "C39_AF=%d" % af], unwind=H + 3, unwindset=["evdns_base_parse_hosts_line.4:%d" % ((H - 1) // 2 + 2)], timeout=900, mem_gb=8))
+                    ["C39_N=%d" % H, "C39_AF=%d" % af], unwind=max(H + 3, 12), unwindset=["evdns_base_parse_hosts_line.4:%d" % ((H - 1) // 2 + 2)], timeout=900, mem_gb=8))
     o.append(ob("file_split_N%d" % F, "harness_file",
                 "evdns_base_resolv_conf_parse_impl / evdns_base_load_hosts_impl on any %d-byte file: every newline-separated piece reaches the line "
                 "routine exactly once, in order, with the caller's flags; buffer freed; ndots untouched (excluding KF-C39-ndots-reset)" % F,
